@@ -44,18 +44,8 @@ TIMEOUT = 30.0
 # Behaviour of the real code on the pinned HEAD that breaks a clause of the statement (checked by hand).  Each entry switches ONE
 # tolerance / exclusion below (look for known('<id>')); deleting an entry re-arms the strict oracle for it.
 KNOWN = [
-    dict(id='malformed-params',
-         input='after initialize / initialized: {"jsonrpc": "2.0", "id": 2, "method": "textDocument/hover", "params": {"textDocument": {"uri": "file:///tmp/a.ucg"}, "position": {"line": -1, "character": 0}}}',
-         observed='no response to id 2; stderr `lsp server error: Invalid request ... invalid value: integer `-1`, expected u32`; the server exits with status 1',
-         clause='(a)+(b): the server keeps running and answers every request',
-         what='a request (or notification) whose params do not deserialize into the lsp_types struct makes main_loop return the serde '
-              'error: no response is written, the process prints "lsp server error: Invalid request" and exits with status 1',
-         replay='to the stdin of `ucg lsp`: Content-Length: 128\\r\\n\\r\\n{"jsonrpc": "2.0", "id": 1, "method": "initialize", "params": {"processId": null, "rootUri": '
-                '"file:///tmp", "capabilities": {}}}Content-Length: 57\\r\\n\\r\\n{"jsonrpc": "2.0", "method": "initialized", "params": {}}Content-Length: 159\\r\\n\\r\\n{"jsonrpc": "2.0", '
-                '"id": 2, "method": "textDocument/hover", "params": {"textDocument": {"uri": "file:///tmp/a.ucg"}, "position": {"line": -1, "character": 0}}} -> only the initialize '
-                'response is written, stderr "invalid value: integer `-1`, expected u32", exit status 1 (also: line 4294967296, line 1.5, no position member, uri "not a uri", params '
-                'null, workspace/symbol without query, didOpen without text: the list MALFORMED below)',
-         excluded='the whole family MALFORMED of standin_lsp_excluded'),
+    # (malformed-params was repaired in ucg, 23f3dcc: an unreadable request gets an InvalidParams error response, an unreadable
+    # notification is dropped; the family MALFORMED of standin_lsp_excluded runs.)
     dict(id='deep-nesting-stack-overflow',
          input='didOpen with text `let x = ` followed by 400 `(`',
          observed="`thread 'main' has overflowed its stack`, SIGABRT (status 134); 200 `(` survive",
